@@ -560,7 +560,7 @@ fn strat_lanes<Q: QuatT>() -> BoxedStrategy<Vec<u64>> {
         .boxed()
 }
 fn strat_rot<Q: QuatT>() -> BoxedStrategy<Vec<u64>> {
-    let smax = if <Q::T as Fl>::BITS == 32 { 40 } else { 300 };
+    let smax = if <Q::T as Fl>::BITS == 32 { 90 } else { 300 }; // f32: |v|^2 leaves the normal range beyond 2^+-63; nothing in q v q* squares v
     (gen::unit_quat(), gen::unit_quat(), gen::vec3(smax))
         .prop_map(|(q, p, v)| {
             let mut w = bits4::<Q::T>(&q);
